@@ -17,7 +17,7 @@
    [run_c02x] dispatches on the tag so that one extracted model serves both
    kinds of cases of the C02 harness. *)
 From Coq Require Import ZArith NArith List Bool.
-From Mpc Require Import Base.Sx Gen.Consts Proto.Live Gen.Skel Proto.LiveInst Proto.RunC02.
+From Mpc Require Import Base.Sx Gen.Consts Proto.Live Gen.Skel Proto.LiveInst Proto.RunC02 Proto.LiveAbort.
 Import ListNotations.
 
 Definition str_of_sx (s : sx) : name := Nm (getLN s).
@@ -69,8 +69,33 @@ Definition run_c02live (inp : sx) : sx :=
   let out := if merged then turns segs else segs in
   SL [ofB fin; ofB merged; SL (map (fun s => SL [ofB (fst s); ofnat (snd s)]) out)].
 
+(* error exits (Proto/LiveAbort.v):
+   input  = (98 kind counts nested-counts branches gfails k): the transport of the
+            garbler (gfails = 1) or of the evaluator fails at that party's k-th
+            Receive (0-based; k >= number of its receives: no failure); the caller
+            closes the connection after an error return, as apps/garbled does
+   output = (gcode grecv ecode erecv) of the deterministic reference run of the
+            GENERATED skeletons: code 0 returned normally, 1 returned an error and
+            closed, 2 failed on the peer's close (EOF), 4 still blocked; number of
+            messages the party received *)
+Definition run_c02abort (inp : sx) : sx :=
+  let k := kind_of_Z (getZ (nthx 1 inp)) in
+  let en := env_of_sx (nthx 2 inp) (nthx 3 inp) (nthx 4 inp) in
+  let gf := getB (nthx 5 inp) in
+  let kk := getnat (nthx 6 inp) in
+  let tg := flat en [] (garbler_skel k) in
+  let te := flat en [] (evaluator_skel k) in
+  let sp := mkSpec (if gf then rem_at_recv kk tg else None)
+                   (if gf then None else rem_at_recv kk te) true in
+  let n := (List.length tg + List.length te + 3)%nat in
+  let s := aref n n sp (ainit tg te) in
+  let b := base s in
+  SL [ofnat (st_code (stG s) (cG b)); ofnat (count_recv tg - count_recv (hp (cG b)));
+      ofnat (st_code (stE s) (cE b)); ofnat (count_recv te - count_recv (hp (cE b)))].
+
 Definition run_c02x (inp : sx) : sx :=
   match inp with
+  | SL (SZ 98%Z :: _) => run_c02abort inp
   | SL (SZ 99%Z :: _) => run_c02live inp
   | _ => run_c02 inp
   end.
